@@ -324,7 +324,22 @@ func (s *Spec) load(path string, prefix string) error {
 				s.Roles[fs.Name] = fs
 			} else if kw == "func" || kw == "lemma" {
 				fs.Name = rest
+				// optional: `func NAME :: (params) (results)` pins the names the contract uses for the
+				// receiver, the parameters and the results, so that renaming them in the source does not
+				// invalidate the contract (they are bound by position)
+				if i := strings.Index(rest, " :: "); i >= 0 {
+					fs.Name = strings.TrimSpace(rest[:i])
+					m := sigRe.FindStringSubmatch("x" + strings.TrimSpace(rest[i+4:]))
+					if m == nil {
+						return fmt.Errorf("%s:%d: bad signature after '::' (want (params) (results))", path, ln)
+					}
+					fs.Params = splitNames(m[2])
+					fs.Results = splitNames(m[3])
+				}
 				if prev, ok := s.Funcs[fs.Name]; ok {
+					if len(fs.Params) > 0 && len(prev.Params) == 0 {
+						prev.Params, prev.Results = fs.Params, fs.Results
+					}
 					// a later block for the same function adds clauses to the first one
 					cur = prev
 					curOwner = ""
